@@ -102,3 +102,25 @@ def spec_has_clone(spec) -> bool:
         return False
 
     return rec(spec)
+
+
+def fix_sibling_ids(spec, auto=lambda label: ("auto", label)):
+    """Make a spec legal by construction: drop explicit ids that would give two
+    siblings the same effective data_id (in place; returns spec)."""
+
+    def eff(n):
+        o = n[2] if len(n) > 2 and n[2] else {}
+        return ("x", o["id"]) if o.get("id") is not None else auto(n[0])
+
+    def rec(nodes):
+        seen = set()
+        for n in nodes:
+            e = eff(n)
+            if e in seen and len(n) > 2 and n[2] and "id" in n[2]:
+                del n[2]["id"]
+                e = eff(n)
+            seen.add(e)
+            rec(n[1])
+
+    rec(spec)
+    return spec
